@@ -53,7 +53,29 @@ def main(argv):
     try:
         mod = importlib.import_module("sa.rules." + pid.lower())
         rep = mod.run(tier)
-        return rep.finish()
+        selfcheck_failed = False
+        if tier == "thorough" and not repo and not os.environ.get("VERIF_NO_SELFTEST"):
+            # checker self-validation: every recorded one-instance mutation must be detected on a scratch copy,
+            # every recorded behaviour-preserving edit must stay quiet
+            import subprocess, re
+            for corpus in ("mutants", "benign"):
+                if not os.path.exists(os.path.join(cdb.VERIF, corpus, pid + ".json")):
+                    continue
+                env = dict(os.environ, VERIF_CORPUS=corpus, VERIF_NO_SELFTEST="1")
+                r = subprocess.run([sys.executable, os.path.join(cdb.VERIF, "tools", "mutants.py"), pid], capture_output=True, text=True, env=env)
+                m = re.search(r"(\d+) mutants run, (\d+) missed", r.stdout)
+                ran, missed = (int(m.group(1)), int(m.group(2))) if m else (0, 1)
+                rep.notes.append("self-validation on scratch copies (%s corpus): %d run, %d %s" % (corpus, ran, missed, "missed" if corpus == "mutants" else "false alarms"))
+                rep.stats["selfcheck_%s_run" % corpus] = ran
+                rep.stats["selfcheck_%s_failed" % corpus] = missed
+                if missed:
+                    selfcheck_failed = True
+                    print(r.stdout[-1500:])
+        rc = rep.finish()
+        if selfcheck_failed and rc == 0:
+            print("ANALYSIS-BROKEN property=%s: checker self-validation failed (a recorded mutant was missed or a benign edit alarmed)" % pid)
+            return 2
+        return rc
     except cdb.AnalysisBroken as e:
         print("ANALYSIS-BROKEN property=%s: %s" % (pid, e))
         return 2
